@@ -1164,7 +1164,7 @@ def _boolean_expression_str(expression: Expression) -> str:
 
     Adds parentheses wherever reparsing the result would otherwise group operands
     differently. All binary operators are right associative and `not` applies to
-    everything that follows it.
+    the comparison or membership test that follows it.
     """
 
     def _operand(operand: Expression, parent_precedence: int, *, left: bool) -> str:
@@ -1432,7 +1432,9 @@ class LogicalNotExpression(Expression):
 
     @staticmethod
     def parse(env: Environment, stream: TokenStream) -> Expression:
-        expr = parse_boolean_primitive(env, stream)
+        # `not` binds more tightly than `and` and `or`, but less tightly than
+        # comparison and membership operators, just like in Python.
+        expr = parse_boolean_primitive(env, stream, PRECEDENCE_RELATIONAL)
         return LogicalNotExpression(expr.token, expr)
 
     def children(self) -> list[Expression]:
